@@ -174,12 +174,45 @@ def corr_rotation(ctx: Ctx, drv):
         ctx.corr_case("rotate_with_quaternion", {"v": v.tolist(), "stratum": st}, [b2f(o) for o in out] if len(out) == 9 else out, R.tolist(), ok, stratum=st)
 
 
+def corr_w(ctx: Ctx, drv):
+    """real w_withquaternion (rotation of the 22 local integrals) and the analytic dR/dv vs the compiled model"""
+    import torch
+
+    from seqm.seqm_functions.constants import Constants
+    from seqm.seqm_functions.two_elec_two_center_int import rotate_with_quaternion, w_withquaternion
+
+    rng = ctx.rng
+    tore = Constants().tore
+    vs = [np.array(a, float) for a in AXES.values()]
+    for _ in range(30 if ctx.thorough else 10):
+        v = rng.normal(size=3)
+        vs.append(v / np.linalg.norm(v))
+    for d in (1e-8, 3e-4, 6e-4):
+        v = np.array([1.0, 0, 0]) + d * np.array([0, 0.6, 0.8])
+        vs.append(v / np.linalg.norm(v))
+    for v in vs:
+        ri = rng.normal(size=22)
+        empty = torch.zeros(0)
+        e1b, e2a, wXH, w = w_withquaternion(None, tore, torch.tensor([8]), torch.tensor([6]), torch.as_tensor(v).reshape(1, 3), torch.zeros(0, 4), torch.as_tensor(ri).reshape(1, 22), torch.zeros(0))
+        want = w.reshape(-1).numpy()
+        out = drv.ask("wrot", *[f2b(t) for t in v], *[f2b(t) for t in ri])
+        ok = len(out) == 100 and all(abs(b2f(o) - t) <= 1e-14 * max(1.0, abs(t)) for o, t in zip(out, want))
+        on_axis = bool(np.isclose(np.abs(v).max(), 1.0, atol=1e-3))
+        ctx.corr_case("w_withquaternion (heavy-heavy block)", {"xij": v.tolist()}, [b2f(o) for o in out[:3]] if len(out) == 100 else out, want[:3].tolist(), ok, stratum="axis/cone" if on_axis else "generic")
+        rot, dR = rotate_with_quaternion(torch.as_tensor(v).reshape(1, 3), True)
+        want = dR.reshape(-1).numpy()
+        out = drv.ask("rotq_grad", *[f2b(t) for t in v])
+        ok = len(out) == 27 and all(abs(b2f(o) - t) <= 4e-16 * max(1.0, abs(t)) for o, t in zip(out, want))
+        ctx.corr_case("rotate_with_quaternion gradient", {"v": v.tolist()}, [b2f(o) for o in out[:3]] if len(out) == 27 else out, want[:3].tolist(), ok, stratum="axis/cone" if on_axis else "generic")
+
+
 def run(ctx: Ctx):
     leanproj.check_theorems(ctx, MODULE, THEOREMS)
     drv = leanproj.Driver()
     try:
         try:
             corr_rotation(ctx, drv)
+            corr_w(ctx, drv)
         except Exception:
             import traceback
             ctx.obligation("correspondence adapters C02 ran", False, traceback.format_exc()[-1500:], kind="harness")
